@@ -20,6 +20,7 @@ mod scen;
 mod scen_bits;
 mod scen_bytes;
 mod scen_events;
+mod scen_pairs;
 mod spec;
 mod typist;
 mod world;
@@ -39,6 +40,7 @@ use std::time::Instant;
 
 thread_local! {
     static LAST_PANIC: RefCell<String> = RefCell::new(String::new());
+    static IN_GUARD: std::cell::Cell<bool> = std::cell::Cell::new(false);
 }
 
 fn install_panic_hook() {
@@ -51,6 +53,10 @@ fn install_panic_hook() {
             "panic".to_string()
         };
         let loc = info.location().map(|l| format!("{}:{}", l.file(), l.line())).unwrap_or_default();
+        if !IN_GUARD.with(|g| g.get()) {
+            eprintln!("HARNESS-ERROR: panic inside the simulator: {} at {}", msg, loc);
+            std::process::exit(2);
+        }
         LAST_PANIC.with(|p| *p.borrow_mut() = format!("{} at {}", msg, loc));
     }));
 }
@@ -63,6 +69,8 @@ fn scenario(id: &str) -> Option<Box<dyn Scenario>> {
         "C07" => Box::new(Bytes { prop: BProp::C07 }),
         "C04" => Box::new(scen_events::Events { prop: scen_events::EProp::C04 }),
         "C14" => Box::new(scen_events::Events { prop: scen_events::EProp::C14 }),
+        "C19" => Box::new(scen_pairs::Pairs),
+        "C13" => Box::new(scen_pairs::Dual),
         "C05" => Box::new(scen_bits::Bits { prop: scen_bits::WProp::C05 }),
         "C06" => Box::new(scen_bits::Bits { prop: scen_bits::WProp::C06 }),
         _ => return None,
@@ -72,13 +80,17 @@ fn scenario(id: &str) -> Option<Box<dyn Scenario>> {
 /// Execute with the panic guard: an unwind out of a real call is a violation
 /// of the property being checked (the call did not return the required value).
 fn exec_guarded(scn: &dyn Scenario, trace: &Trace, env: &mut Env) -> Outcome {
+    IN_GUARD.with(|g| g.set(true));
     let r = catch_unwind(AssertUnwindSafe(|| scn.execute(trace, env)));
+    IN_GUARD.with(|g| g.set(false));
     match r {
         Ok(o) => o,
         Err(_) => {
             let msg = LAST_PANIC.with(|p| p.borrow().clone());
             // a panic inside the harness itself is a harness error, not a finding
-            if !msg.contains("/repo/") && !msg.contains("pc-keyboard") && !msg.contains("pc_keyboard") {
+            const HARNESS_FILES: [&str; 12] = ["src/main.rs", "src/scen", "src/model.rs", "src/op.rs", "src/world.rs", "src/typist.rs", "src/dynobj.rs", "src/cover.rs", "src/spec.rs", "src/keys.rs", "src/minimise.rs", "src/known.rs"];
+            let loc = msg.rsplit(" at ").next().unwrap_or("");
+            if HARNESS_FILES.iter().any(|f| loc.starts_with(f)) && !loc.contains("/repo/") {
                 eprintln!("HARNESS-ERROR: panic inside the simulator: {}", msg);
                 std::process::exit(2);
             }
@@ -289,13 +301,14 @@ fn cmd_check(id: &str, tier: Tier) -> i32 {
     let mut extra: Vec<(String, J)> = Vec::new();
     // batch-level history check (only meaningful if no run failed)
     if b.failure.is_none() {
-        let mut hits = b.known_hits.clone();
-        if let Some(v) = scn.batch_check(&b.cov, &known, &mut hits) {
-            b.known_hits = hits;
-            // a batch-level violation carries its own replay trace in detail; handled by the scenario
-            b.failure = Some(Failure { run: u64::MAX, trace: Trace { prop: id.to_string(), cfg: Default::default(), ops: vec![], seed, run: u64::MAX, expect: None }, violation: v });
-        } else {
-            b.known_hits = hits;
+        for mut t in scn.batch_traces(&b.cov) {
+            t.seed = seed;
+            let mut e = Env::new(&tables, &known);
+            scn.declare(&mut e.cov);
+            if let Some(v) = exec_guarded(scn.as_ref(), &t, &mut e).violation {
+                b.failure = Some(Failure { run: t.run, trace: t, violation: v });
+                break;
+            }
         }
     }
     let evpath = format!("{}/evidence/{}.json", root(), id);
@@ -318,8 +331,9 @@ fn cmd_check(id: &str, tier: Tier) -> i32 {
         let orig_len = f.trace.ops.len();
         let (mut min, minv, tests) = minimise::minimise(&f.trace, &target, &mut test);
         min.expect = Some(op::Expect { oracle: minv.oracle.clone(), detail: minv.detail.clone() });
-        let path = format!("{}/replays/{}-{}-{}.replay", root(), id, seed, f.run);
-        let abs = std::fs::canonicalize(root()).map(|p| p.join(format!("replays/{}-{}-{}.replay", id, seed, f.run))).unwrap_or_else(|_| path.clone().into());
+        let runtag = if f.run == u64::MAX { "batch".to_string() } else { f.run.to_string() };
+        let path = format!("{}/replays/{}-{}-{}.replay", root(), id, seed, runtag);
+        let abs = std::fs::canonicalize(root()).map(|p| p.join(format!("replays/{}-{}-{}.replay", id, seed, runtag))).unwrap_or_else(|_| path.clone().into());
         if let Err(e) = std::fs::write(&path, min.render()) {
             harness_error(&format!("cannot write {}: {}", path, e));
         }
